@@ -454,7 +454,7 @@ fn run_table(cfg: &Cfg, segs: &[Vec<Batch>], colnames: &[String], tables: &[Vec<
                     panic_seen_at = Some(std::time::Instant::now());
                 }
                 let give_up = match panic_seen_at {
-                    Some(t) => t.elapsed() > Duration::from_secs(3),
+                    Some(t) => t.elapsed() > Duration::from_secs(2),
                     None => t0.elapsed() > Duration::from_secs(60),
                 };
                 if give_up {
@@ -463,11 +463,169 @@ fn run_table(cfg: &Cfg, segs: &[Vec<Batch>], colnames: &[String], tables: &[Vec<
                     }
                     return Err(Fail::Hang(format!(
                         "the call did not return ({} s after {})",
-                        if panic_seen_at.is_some() { 3 } else { 60 },
+                        if panic_seen_at.is_some() { 2 } else { 60 },
                         if panic_seen_at.is_some() { "a panic in a database thread" } else { "it started" }
                     )));
                 }
             }
+        }
+    }
+}
+
+// ------------------------------------------------------------------------------------------------
+// one child process per case
+
+static CASE_COUNTER: AtomicUsize = AtomicUsize::new(0);
+
+/// A worker process runs cases one after the other for as long as they are clean; after a case in
+/// which anything panicked or hung it is killed and replaced (its database may have live
+/// background threads with poisoned locks).
+struct Worker {
+    child: std::process::Child,
+    stdin: std::process::ChildStdin,
+    lines: std::sync::mpsc::Receiver<String>,
+}
+
+static WORKER: std::sync::Mutex<Option<Worker>> = std::sync::Mutex::new(None);
+
+fn spawn_worker() -> Worker {
+    let exe = std::env::current_exe().expect("current_exe");
+    let mut child = std::process::Command::new(exe)
+        .args(["replay", "c01_api", "--input", "(worker)"])
+        .env("LV_COL_CHILD", "1")
+        .env("RUST_LOG", "off")
+        .stdin(std::process::Stdio::piped())
+        .stdout(std::process::Stdio::piped())
+        .stderr(std::process::Stdio::null())
+        .spawn()
+        .expect("cannot spawn worker");
+    let stdin = child.stdin.take().unwrap();
+    let stdout = child.stdout.take().unwrap();
+    let (tx, rx) = std::sync::mpsc::channel();
+    std::thread::spawn(move || {
+        use std::io::BufRead;
+        for line in std::io::BufReader::new(stdout).lines() {
+            match line {
+                Ok(l) => {
+                    if tx.send(l).is_err() {
+                        break;
+                    }
+                }
+                Err(_) => break,
+            }
+        }
+    });
+    Worker { child, stdin, lines: rx }
+}
+
+fn kill_worker(mut w: Worker) {
+    let pid = w.child.id();
+    let _ = w.child.kill();
+    let _ = w.child.wait();
+    if let Ok(rd) = std::fs::read_dir("/verif/.cache/scratch") {
+        for e in rd.flatten() {
+            if e.file_name().to_string_lossy().starts_with(&format!("col-{}-", pid)) {
+                let _ = std::fs::remove_dir_all(e.path());
+            }
+        }
+    }
+}
+
+fn run_in_child(input: &Sx) -> Vec<Outcome> {
+    use std::io::Write;
+    cleanup_stale_scratch();
+    let base = std::path::Path::new("/verif/.cache/scratch");
+    let _ = std::fs::create_dir_all(base);
+    let path = base.join(format!("col-{}-case{}.sx", std::process::id(), CASE_COUNTER.fetch_add(1, Ordering::SeqCst)));
+    std::fs::write(&path, input.to_string()).expect("write case file");
+    let mut guard = WORKER.lock().unwrap_or_else(|e| e.into_inner());
+    let mut w = guard.take().unwrap_or_else(spawn_worker);
+    let mut outs = vec![];
+    let mut verdict = "died";
+    if writeln!(w.stdin, "{}", path.display()).and_then(|_| w.stdin.flush()).is_ok() {
+        let t0 = std::time::Instant::now();
+        loop {
+            match w.lines.recv_timeout(Duration::from_millis(200)) {
+                Ok(line) => {
+                    if let Some(rest) = line.strip_prefix("@@END ") {
+                        verdict = if rest.trim() == "clean" { "clean" } else { "tainted" };
+                        break;
+                    }
+                    if !line.starts_with('{') {
+                        continue;
+                    }
+                    let v: serde_json::Value = match serde_json::from_str(&line) {
+                        Ok(v) => v,
+                        Err(_) => continue,
+                    };
+                    let s = |k: &str| v.get(k).and_then(|x| x.as_str()).map(|x| x.to_string());
+                    let model_input = if v.get("case_input").is_some() { s("input").and_then(|x| Sx::parse(&x).ok()) } else { None };
+                    outs.push(Outcome {
+                        model: s("model"),
+                        model_input,
+                        impl_out: s("impl").and_then(|x| Sx::parse(&x).ok()),
+                        oracle: s("oracle"),
+                        signature: s("signature"),
+                        nontrivial: v.get("nontrivial").and_then(|x| x.as_bool()).unwrap_or(true),
+                    });
+                }
+                Err(std::sync::mpsc::RecvTimeoutError::Timeout) => {
+                    if t0.elapsed() > Duration::from_secs(120) {
+                        verdict = "timeout";
+                        break;
+                    }
+                }
+                Err(std::sync::mpsc::RecvTimeoutError::Disconnected) => break,
+            }
+        }
+    }
+    let _ = std::fs::remove_file(&path);
+    if verdict == "clean" {
+        *guard = Some(w);
+    } else {
+        kill_worker(w);
+    }
+    if verdict == "timeout" || verdict == "died" {
+        outs.push(Outcome {
+            model: None,
+            model_input: None,
+            impl_out: Some(Sx::a(format!("worker-{}", verdict))),
+            oracle: Some(if verdict == "timeout" { "the case did not finish within 120 s".to_string() } else { "the process running the case died without finishing its report".to_string() }),
+            signature: Some(format!("api-worker-{}", verdict)),
+            nontrivial: true,
+        });
+    }
+    outs
+}
+
+/// worker side: case file paths on stdin, outcomes and an @@END line on stdout
+fn worker_loop(suite: &Api) {
+    use std::io::{BufRead, Write};
+    let stdin = std::io::stdin();
+    for line in stdin.lock().lines() {
+        let path = match line {
+            Ok(l) => l,
+            Err(_) => break,
+        };
+        let text = match std::fs::read_to_string(path.trim()) {
+            Ok(t) => t,
+            Err(_) => break,
+        };
+        let inp = Sx::parse(text.trim()).expect("case file syntax");
+        let outs = suite.run(&inp);
+        let tainted = outs.iter().any(|o| match &o.signature {
+            Some(s) => s.starts_with("api-panic") || s.starts_with("api-hang") || s.starts_with("api-error") || s.starts_with("api-background"),
+            None => false,
+        });
+        let stdout = std::io::stdout();
+        let mut out = stdout.lock();
+        for o in &outs {
+            lvharness::suite::emit(&mut out, "c01_api", "replay", &inp, o);
+        }
+        let _ = writeln!(out, "@@END {}", if tainted { "tainted" } else { "clean" });
+        let _ = out.flush();
+        if tainted {
+            break;
         }
     }
 }
@@ -680,8 +838,17 @@ impl Suite for Api {
     }
 
     fn run(&self, input: &Sx) -> Vec<Outcome> {
+        // Every database lifetime gets its own process: a LocustDB whose flush or worker thread has
+        // panicked keeps background threads that panic later (poisoned locks) and would be
+        // attributed to the next case.
+        if std::env::var("LV_COL_CHILD").is_err() {
+            return run_in_child(input);
+        }
+        if matches!(input, Sx::L(l) if l.len() == 1 && matches!(&l[0], Sx::A(a) if a == "worker")) {
+            worker_loop(self);
+            std::process::exit(0);
+        }
         install_panic_hook();
-        cleanup_stale_scratch();
         let _ = take_panics();
         let it = input.items();
         let cfg = parse_cfg(&it[0]);
